@@ -81,8 +81,8 @@ func c17URL(r *rng, host string) string {
 	default:
 		sb.WriteString(pick(r, c17Paths))
 	}
-	if r.chance(1, 150) {
-		// beyond the 4 KiB cap (rare: the driver's tokenizer is quadratic in the atom length)
+	if r.chance(1, 25) {
+		// beyond the 4 KiB cap
 		sb.WriteString("/" + strings.Repeat(pick(r, []string{"a", "A", "aB/"}), 1400+r.n(1400)))
 	}
 
@@ -109,7 +109,7 @@ func c17AnyURL(r *rng) (u string, wellFormed bool) {
 
 		return mutateCase(r, u), false
 	case 3:
-		if !r.chance(1, 10) {
+		if !r.chance(1, 2) {
 			return pick(r, c17Odd), false
 		}
 		// host straddling the cap
